@@ -39,4 +39,6 @@ def all_units():
         units_rand.register(add)
         import units_ct
         units_ct.register(add)
+        import units_err
+        units_err.register(add)
     return list(_units)
